@@ -5,7 +5,7 @@ use crate::core::*;
 use crate::lockstep::Mismatch;
 use crate::props::c15::reg_actions;
 use crate::scpimodel::*;
-use serde_json::{json, Value};
+use serde_json::Value;
 
 fn mav(a: Act) -> Act {
     match a {
